@@ -130,8 +130,8 @@ Refresh(act) ==
                           \A l \in sel : s[l] \in Behs(l, act.mode)} :
        \E r \in Results(cfg, S, act, script) :
            /\ S' = (IF AsIsC THEN r.asis ELSE r.st)
-           /\ StepProps(sel, script, S', r.rew)
            /\ Emit(cfg, S, act, script, S', r.rew, r.failed, r.asis)
+           /\ StepProps(sel, script, S', r.rew)   \* after Emit: a violating edge is the last one emitted
     /\ UNCHANGED <<phase, cfg>>
 
 Forced == \E k \in {"block", "allow"} :
